@@ -587,11 +587,19 @@ func runFalse(s *system, pt point, chunk int, only string) (violated bool) {
 func falsePoints(s *system) []point {
 	out := []point{merge(witDiag(s, "rand"), confDefault(s))}
 	if vkit.Thorough() && len(s.coords) > 0 {
+		// integer witnesses at their bounds; scalar witnesses stay random: at the special scalars
+		// ±1 a swapped pair of points can form a TRUE statement again (Y = -H ⇒ H = -Y)
 		for _, d := range []string{"max", "-max"} {
-			out = append(out, merge(witDiag(s, d), confDefault(s)))
+			p := merge(witDiag(s, d), confDefault(s))
+			for _, c := range s.coords {
+				if c.kind == cScalar {
+					p[c.name] = "rand"
+				}
+			}
+			out = append(out, p)
 		}
 	}
-	return out
+	return dedup(out)
 }
 
 func runRange(s *system, pt point) bool {
